@@ -34,12 +34,13 @@ package ipfscluster
 //@   modifies nothing
 
 //@ func (c *Cluster) obtainAllocations
-//@   property C03
+//@   property C03 C10
 //@   requires 0 < rplMin && rplMin <= rplMax
 //@   requires disjoint(dom(currentValidMetrics), dom(candidatesMetrics)) && disjoint(dom(currentValidMetrics), dom(priorityMetrics)) && disjoint(dom(candidatesMetrics), dom(priorityMetrics))
 //@   loop 1 (range currentValidMetrics)
 //@     invariant elems(validAllocations) == seen1 && len(validAllocations) == cnt1 && distinct(validAllocations) && !isnil(validAllocations)
 //@   ensures err == nil && res == nil ==> rplMin <= len(currentValidMetrics) && len(currentValidMetrics) <= rplMax
+//@   ensures [untouched-when-minimum-met] rplMin <= len(currentValidMetrics) && len(currentValidMetrics) <= rplMax ==> err == nil && res == nil
 //@   ensures err == nil && res != nil ==> distinct(res) && rplMin <= len(res) && len(res) <= rplMax
 //@   ensures err == nil && res != nil ==> sub(elems(res), union(dom(currentValidMetrics), dom(candidatesMetrics), dom(priorityMetrics)))
 //@   ensures err == nil && res != nil && len(currentValidMetrics) <= rplMax ==> sub(dom(currentValidMetrics), elems(res))
@@ -59,7 +60,7 @@ package ipfscluster
 //@   modifies nothing
 
 //@ func (c *Cluster) allocate
-//@   property C03
+//@   property C03 C10
 //@   requires validFactors(rplMin, rplMax)
 //@   loop 1 (range metrics)
 //@     invariant forall p peer.ID :: in(p, dom(currentMetrics)) <==> (!in(p, elems(blacklist)) && in(p, elems(currentAllocs)) && hasMetric(metrics, idx1, p))
@@ -71,6 +72,7 @@ package ipfscluster
 //@   ensures [keeps-healthy] rplMin > 0 && err == nil && len(currentMetrics) <= rplMax ==> sub(dom(currentMetrics), elems(res))
 //@   ensures [min-max] rplMin > 0 && err == nil ==> (distinct(res) && rplMin <= len(res) && len(res) <= rplMax && (forall p peer.ID :: in(p, elems(res)) ==> hasMetric(metrics, len(metrics), p) && !in(p, elems(blacklist)))) || (res == currentAllocs && rplMin <= len(currentMetrics) && len(currentMetrics) <= rplMax)
 //@   ensures [fail-nil] err != nil ==> res == nil
+//@   ensures [untouched-when-minimum-met] rplMin > 0 && rplMin <= len(currentMetrics) && len(currentMetrics) <= rplMax ==> err == nil && res == currentAllocs
 //@   modifies nothing
 
 // ---- consensus component and shared state (assumed interface contracts) ----
@@ -230,6 +232,16 @@ package ipfscluster
 //@   ensures [trusted] haskey(c.config.RPCPolicy, svc + "." + method) && c.config.RPCPolicy[svc + "." + method] == RPCTrusted ==> (res <==> in(pid, trustedSet))
 //@   ensures [closed] haskey(c.config.RPCPolicy, svc + "." + method) && c.config.RPCPolicy[svc + "." + method] != RPCOpen && c.config.RPCPolicy[svc + "." + method] != RPCTrusted ==> !res
 //@   modifies nothing
+
+// the RPC server is always created with that authorization function (also when tracing is on)
+//@ extern rpc.WithAuthorizeFunc(a)
+//@   ensures res == uf("authorizeOption", "rpc.ServerOption", a)
+//@ extern rpc.NewServer(h, p, opts)
+//@   ensures res != nil
+//@ func newRPCServer
+//@   property C07
+//@   at_call rpc.NewServer assert [authorization-installed] exists i int :: 0 <= i && i < len(opts) && opts[i] == uf("authorizeOption", "rpc.ServerOption", authF)
+//@   modifies *
 
 //@ directive rpc_methods_in_policy newRPCServer DefaultRPCPolicy
 //@   property C07
